@@ -436,3 +436,5 @@ _quick("C18", "C18_promoted", "through the real Server.handle with the forwardin
 
 _quick("C20", "C20_longwait2", "the long-wait / long-expiry bucket queue at the server's geometry (first node 256 entries) under the server's own maintenance trigger (real RemoveLongTimeOut / RemoveLongExpried: restructure when a third of the bucket, at least 256 entries, or all of it is holes): every program of 4 steps out of {300 new entries, 900 new entries, the older 40 % leave one by one, the newer 40 % leave, all but 2 leave}, then drained, Reset and reused for 2000 entries", ["-witness", "20"])
 _thorough("C20", "C20_longwait2x", "as C20_longwait2 with 5 steps", ["-witness", "100"])
+
+_quick("C07", "C07_shorten", "a persisted hold whose deadline was moved by an update (Count changed) one second after the grant: E 100 -> 2 (shortened), 2 -> 100 (lengthened), 100 -> 50; the instance stops at once, a fresh one starts 0 / 2 / 6 s later: held again exactly if the CURRENT deadline has not passed, with that deadline", ["-witness", "1"], reach=["end", "expired-in-outage"])
